@@ -1,6 +1,372 @@
-//! C04 — stub (not yet implemented; not registered in MANIFEST.json).
-use crate::fw::{CheckDef, Ctx};
+//! C04 — reported balances equal the sum of the register, over any date range.
 
-pub const DEF: CheckDef = CheckDef { id: "C04", run, technique: "stub", rule: "stub", assumptions: &[], shards: 0, hang_s: 20, single_worker: false };
+use std::collections::BTreeMap;
 
-fn run(_ctx: &mut Ctx) {}
+use chrono::NaiveDate;
+use okane_core::report::query::{BalanceQuery, DateRange, PostingQuery};
+
+use crate::fw::{CheckDef, Ctx, Outcome};
+use crate::oka::{self, Balances};
+use crate::q::{qmap_add, qmap_clean, qmap_show, QMap, Q};
+use crate::refledger::{self as rl, Ann, Bal, Exp, Prec, State, P};
+
+pub const DEF: CheckDef = CheckDef {
+    id: "C04",
+    run,
+    technique: "exhaustive enumeration of all ledgers of up to 3-4 transactions over a 14-transaction alphabet (as histories, any file order) x precision contexts x ALL (start,end) date ranges; balance, range-recomputed balance and register are obtained from the real code and compared with each other and with the reference ledger's per-posting amounts",
+    rule: "case = (precision context, sequence of <= 3 (thorough 4) transactions from a 14-transaction alphabet with three dates, repeated dates, multi-commodity, cancelling, inferred, assigned, priced and sub-precision postings); inside a case all 36 (start,end) pairs over {none, d1-1, d1, d2, d3, d3+1} (incl. start=end and start>end) are queried, additivity is checked for every split point, and a slice of cases is also run through the CLI (balance/register on real files). states = distinct ledgers, transitions = balance/register queries compared",
+    assumptions: &[
+        "RefLedger gives the per-posting amounts; sums are exact rationals; a range report may be rounded to the declared precision (any midpoint rule accepted), the whole-history report may be raw",
+        "three dates, accounts {P,Q,R}, commodities {X,Y}",
+    ],
+    shards: 64,
+    hang_s: 30,
+    single_worker: false,
+};
+
+#[derive(Clone)]
+struct T {
+    day: u32,
+    ps: Vec<P>,
+}
+
+const D1: u32 = 10;
+const D2: u32 = 15;
+const D3: u32 = 20;
+
+fn alphabet() -> Vec<T> {
+    let a = |acct, v, c| P::amt(acct, v, c);
+    vec![
+        T { day: D1, ps: vec![a("P", "1", "X"), a("Q", "-1", "X")] },
+        T { day: D2, ps: vec![a("P", "2", "X"), P::omitted("Q")] },
+        T { day: D3, ps: vec![a("P", "-1", "X"), a("Q", "1", "X")] },
+        T { day: D1, ps: vec![a("P", "1", "Y"), a("R", "-1", "Y")] },
+        T { day: D2, ps: vec![a("P", "1", "X"), a("P", "2", "Y"), P::omitted("R")] },
+        T { day: D2, ps: vec![a("P", "-1", "X"), a("Q", "1", "X")] },
+        T { day: D3, ps: vec![a("P", "1.005", "X"), a("Q", "-1.005", "X")] },
+        T { day: D1, ps: vec![a("Q", "0.005", "X"), a("R", "-0.005", "X")] },
+        T { day: D3, ps: vec![a("P", "1", "X").with_ann(Ann::Rate("2", "Y")), a("R", "-2", "Y")] },
+        T { day: D2, ps: vec![a("R", "3", "Y"), a("P", "-3", "Y")] },
+        T { day: D1, ps: vec![P::assign("P", Bal::Val("5", "X")), P::omitted("Q")] },
+        T { day: D3, ps: vec![a("P", "1", "X"), a("P", "-1", "X")] },
+        T { day: D2, ps: vec![a("P", "0.004", "X"), a("Q", "-0.004", "X")] },
+        T { day: D3, ps: vec![a("Q", "2", "Y").with_ann(Ann::LotRate("3", "X")), a("R", "-6", "X")] },
+    ]
+}
+
+fn render(prec: &Prec, seq: &[&T]) -> String {
+    let mut s = rl::prec_header(prec);
+    for (i, t) in seq.iter().enumerate() {
+        s.push_str(&format!("2024/01/{:02} t{}\n", t.day, i));
+        for p in &t.ps {
+            s.push_str(&p.render(p.acct));
+            s.push('\n');
+        }
+        s.push('\n');
+    }
+    s
+}
+
+fn day(d: u32) -> NaiveDate {
+    oka::date(2024, 1, d)
+}
+
+fn bounds() -> Vec<Option<u32>> {
+    vec![None, Some(D1 - 1), Some(D1), Some(D2), Some(D3), Some(D3 + 1)]
+}
+
+fn in_range(d: u32, s: Option<u32>, e: Option<u32>) -> bool {
+    s.map(|s| d >= s).unwrap_or(true) && e.map(|e| d < e).unwrap_or(true)
+}
+
+/// got may be the exact sum, or the sum rounded to the declared precision (any midpoint rule)
+fn agrees(exact: &QMap, got: &QMap, prec: &Prec) -> bool {
+    let keys: std::collections::BTreeSet<&String> = exact.keys().chain(got.keys()).collect();
+    for k in keys {
+        let e = exact.get(k).copied().unwrap_or(Q::ZERO);
+        let g = got.get(k).copied().unwrap_or(Q::ZERO);
+        if e == g {
+            continue;
+        }
+        match prec.get(k.as_str()) {
+            None => return false,
+            Some(dp) => {
+                // g must be a multiple of 10^-dp within half a unit of e
+                let unit = Q::new(1, 10i128.pow(*dp));
+                if g.round_dp(*dp).0 != g {
+                    return false;
+                }
+                let diff = e.sub(g).abs();
+                if diff.cmp(&unit.div(Q::int(2))) == std::cmp::Ordering::Greater {
+                    return false;
+                }
+            }
+        }
+    }
+    true
+}
+
+fn sum_maps(a: &Balances, b: &Balances) -> Balances {
+    let mut out = a.clone();
+    for (acc, m) in b {
+        let e = out.entry(acc.clone()).or_default();
+        for (c, v) in m {
+            qmap_add(e, c, *v);
+        }
+    }
+    out
+}
+
+fn judge(prec: &Prec, seq: &[&T], text: &str, with_cli: bool, queries: &mut u64) -> Outcome {
+    // reference: per-posting amounts
+    let mut st = State::default();
+    let mut ref_postings: Vec<(u32, String, QMap)> = vec![];
+    for t in seq {
+        match rl::step(&st, prec, &t.ps) {
+            Exp::Accept { amounts, next, .. } => {
+                for (p, a) in t.ps.iter().zip(amounts) {
+                    ref_postings.push((t.day, p.acct.to_string(), a));
+                }
+                st = next;
+            }
+            other => panic!("harness bug: alphabet transaction not accepted by the reference: {:?}", other),
+        }
+    }
+    let ref_sum = |s: Option<u32>, e: Option<u32>| -> Balances {
+        let mut b = Balances::new();
+        for (d, acc, a) in &ref_postings {
+            if in_range(*d, s, e) {
+                let m = b.entry(acc.clone()).or_default();
+                for (c, v) in a {
+                    qmap_add(m, c, *v);
+                }
+            }
+        }
+        b
+    };
+    let bs = bounds();
+    let r = oka::with_ledger(&[(oka::ROOT, text)], oka::ROOT, None, |r| {
+        let (l, ctx) = match r {
+            Ok(x) => x,
+            Err(e) => return Err(Outcome::violation(format!("accepted-ledger-rejected/{}", e.variant), e.rendered)),
+        };
+        // register
+        let posts = l.postings(ctx, &PostingQuery { account: None });
+        let mut reg: Balances = Balances::new();
+        let mut reg_list: Vec<(String, QMap)> = vec![];
+        for p in &posts {
+            let m = oka::amount_to_qmap(&p.amount);
+            let e = reg.entry(p.account.as_str().to_string()).or_default();
+            for (c, v) in &m {
+                qmap_add(e, c, *v);
+            }
+            reg_list.push((p.account.as_str().to_string(), m));
+        }
+        *queries += 1;
+        // register restricted to one account = the sub-list of the full register
+        for acc in ["P", "Q", "R", "Nope"] {
+            let sub = l.postings(ctx, &PostingQuery { account: Some(acc.to_string()) });
+            let want: Vec<&(String, QMap)> = reg_list.iter().filter(|(a, _)| a == acc).collect();
+            *queries += 1;
+            if sub.len() != want.len() || sub.iter().zip(&want).any(|(p, w)| oka::amount_to_qmap(&p.amount) != w.1) {
+                return Err(Outcome::violation("register-of-one-account-differs-from-full-register", format!("account {}", acc)));
+            }
+        }
+        // register vs reference postings
+        if reg_list.len() != ref_postings.len() || reg_list.iter().zip(&ref_postings).any(|(g, w)| g.0 != w.1 || oka::clean_balances(&[(String::new(), g.1.clone())].into_iter().collect()) != oka::clean_balances(&[(String::new(), w.2.clone())].into_iter().collect())) {
+            return Err(Outcome::violation("register-differs-from-reference-postings", format!("register {:?}\nreference {:?}", reg_list, ref_postings)));
+        }
+        let mut table: BTreeMap<(usize, usize), Balances> = BTreeMap::new();
+        for (si, s) in bs.iter().enumerate() {
+            for (ei, e) in bs.iter().enumerate() {
+                let q = BalanceQuery { conversion: None, date_range: DateRange { start: s.map(day), end: e.map(day) } };
+                *queries += 1;
+                let got = match l.balance(ctx, &q) {
+                    Ok(b) => oka::balance_to_map(&b),
+                    Err(e) => return Err(Outcome::violation("balance-query-failed", format!("range {:?}..{:?}: {}", s, e, e))),
+                };
+                table.insert((si, ei), got);
+            }
+        }
+        Ok((reg, table))
+    });
+    let (reg, table) = match r {
+        Ok(x) => x,
+        Err(o) => return o,
+    };
+    let whole = &table[&(0, 0)];
+    // (i) whole-history balance = sum of the register (exactly)
+    if oka::clean_balances(whole) != oka::clean_balances(&reg) {
+        return Outcome::violation("balance-differs-from-register-sum", format!("balance {:?}\nregister sums {:?}", whole, reg));
+    }
+    for (si, s) in bs.iter().enumerate() {
+        for (ei, e) in bs.iter().enumerate() {
+            let got = &table[&(si, ei)];
+            let exact = ref_sum(*s, *e);
+            // (ii) = sum over transactions dated in [start, end), up to rounding
+            let accts: std::collections::BTreeSet<&String> = got.keys().chain(exact.keys()).collect();
+            for acc in accts {
+                let g = got.get(acc).cloned().unwrap_or_default();
+                let mut x = exact.get(acc).cloned().unwrap_or_default();
+                qmap_clean(&mut x);
+                let mut gc = g.clone();
+                qmap_clean(&mut gc);
+                if !agrees(&x, &gc, prec) {
+                    let kind = if s.is_none() && e.is_none() { "whole-history" } else { "date-range" };
+                    return Outcome::violation(format!("{}-balance-differs-from-sum-of-postings-in-range", kind), format!("range {:?}..{:?} account {}: balance {} but postings dated in range sum to {}", s, e, acc, qmap_show(&gc), qmap_show(&x)));
+                }
+            }
+            // (v) never shows a commodity whose exact total is zero
+            for (acc, m) in got {
+                for (c, v) in m {
+                    let ex = exact.get(acc).and_then(|x| x.get(c)).copied().unwrap_or(Q::ZERO);
+                    if ex.is_zero() {
+                        return Outcome::violation("shows-commodity-with-zero-total", format!("range {:?}..{:?}: account {} shows {} {} although its total there is exactly zero", s, e, acc, v, c));
+                    }
+                }
+            }
+        }
+    }
+    // (iii) additivity over adjacent ranges, for every split point
+    for (si, s) in bs.iter().enumerate() {
+        for (ei, e) in bs.iter().enumerate() {
+            for (mi, m) in bs.iter().enumerate() {
+                let (Some(mv), true) = (m, true) else { continue };
+                if s.map(|s| *mv < s).unwrap_or(false) || e.map(|e| *mv > e).unwrap_or(false) {
+                    continue;
+                }
+                let left = &table[&(si, mi)];
+                let right = &table[&(mi, ei)];
+                let total = &table[&(si, ei)];
+                let sum = sum_maps(left, right);
+                let accts: std::collections::BTreeSet<&String> = sum.keys().chain(total.keys()).collect();
+                for acc in accts {
+                    let a = sum.get(acc).cloned().unwrap_or_default();
+                    let b = total.get(acc).cloned().unwrap_or_default();
+                    let keys: std::collections::BTreeSet<&String> = a.keys().chain(b.keys()).collect();
+                    for k in keys {
+                        let av = a.get(k).copied().unwrap_or(Q::ZERO);
+                        let bv = b.get(k).copied().unwrap_or(Q::ZERO);
+                        let tol = match prec.get(k.as_str()) {
+                            None => Q::ZERO,
+                            Some(dp) => Q::new(1, 10i128.pow(*dp)),
+                        };
+                        if av.sub(bv).abs().cmp(&tol) == std::cmp::Ordering::Greater {
+                            return Outcome::violation("adjacent-ranges-do-not-add-up", format!("[{:?},{:?}) + [{:?},{:?}) = {} {} but [{:?},{:?}) = {} {} (account {})", s, m, m, e, av, k, s, e, bv, k, acc));
+                        }
+                    }
+                }
+            }
+        }
+    }
+    // (vi) the same through the CLI on real files
+    if with_cli {
+        if let Some(o) = cli_pass(text, whole, queries) {
+            return o;
+        }
+    }
+    Outcome::pass(format!("ok/txns{}/prec{}{}", seq.len(), prec.len(), if with_cli { "/cli" } else { "" }))
+}
+
+fn run_cli(args: &[&str]) -> Result<String, String> {
+    use clap::Parser as _;
+    let cli = okane::cmd::Cli::try_parse_from(args).map_err(|e| format!("clap: {}", e))?;
+    let mut out: Vec<u8> = vec![];
+    cli.run(&mut out).map_err(|e| format!("{}", e))?;
+    Ok(String::from_utf8_lossy(&out).to_string())
+}
+
+fn cli_pass(text: &str, whole: &Balances, queries: &mut u64) -> Option<Outcome> {
+    let dir = oka::scratch_dir("c04");
+    let path = dir.join("main.ledger");
+    std::fs::write(&path, text).expect("write ledger");
+    let p = path.to_string_lossy().to_string();
+    *queries += 2;
+    let bal = match run_cli(&["okane", "balance", &p]) {
+        Ok(s) => s,
+        Err(e) => return Some(Outcome::violation("cli-balance-failed", e)),
+    };
+    // "Account: amount" lines
+    let mut cli_bal = Balances::new();
+    for line in bal.lines() {
+        let (acc, amt) = line.rsplit_once(": ")?;
+        let m = super::bk::parse_inline_amount(amt)?;
+        cli_bal.insert(acc.to_string(), m);
+    }
+    if oka::clean_balances(&cli_bal) != oka::clean_balances(whole) {
+        return Some(Outcome::violation("cli-balance-differs-from-api-balance", format!("cli:\n{}\napi: {:?}", bal, whole)));
+    }
+    for acc in ["P", "Q", "R"] {
+        *queries += 1;
+        let reg = match run_cli(&["okane", "register", &p, acc]) {
+            Ok(s) => s,
+            Err(e) => return Some(Outcome::violation("cli-register-failed", e)),
+        };
+        // "<account> <amount> <running total>"; the running total of the last line is the account's balance
+        let last = reg.lines().last();
+        let want = oka::clean_balances(whole).get(acc).cloned().unwrap_or_default();
+        match last {
+            None => {
+                if !want.is_empty() && whole.contains_key(acc) {
+                    return Some(Outcome::violation("cli-register-empty-for-account-with-balance", format!("account {} balance {}", acc, qmap_show(&want))));
+                }
+            }
+            Some(l) => {
+                let rest = l.strip_prefix(acc).map(|x| x.trim_start()).unwrap_or(l);
+                // the running total is the last inline amount on the line: either "(...)" or the last two tokens, or "0"
+                let total_txt = if rest.ends_with(')') {
+                    &rest[rest.rfind('(').unwrap_or(0)..]
+                } else if rest.ends_with(" 0") || rest == "0" {
+                    "0"
+                } else {
+                    let mut it = rest.rsplitn(3, ' ');
+                    let c = it.next().unwrap_or("");
+                    let v = it.next().unwrap_or("");
+                    let start = rest.len() - c.len() - v.len() - 1;
+                    &rest[start..]
+                };
+                let got = super::bk::parse_inline_amount(total_txt).unwrap_or_default();
+                let mut gc = got.clone();
+                qmap_clean(&mut gc);
+                if gc != want {
+                    return Some(Outcome::violation("register-final-running-total-differs-from-balance", format!("account {}: register ends with {:?} ({}), balance is {}\n{}", acc, total_txt, qmap_show(&gc), qmap_show(&want), reg)));
+                }
+            }
+        }
+    }
+    None
+}
+
+fn run(ctx: &mut Ctx) {
+    let alpha = alphabet();
+    let precs: Vec<Prec> = vec![Prec::new(), [("X", 2u32)].into_iter().collect()];
+    let maxlen = ctx.tier.pick(3usize, 4usize);
+    let n = alpha.len();
+    let mut counter = 0u64;
+    for prec in &precs {
+        for len in 1..=maxlen {
+            let total = (n as u64).pow(len as u32);
+            for k in 0..total {
+                counter += 1;
+                if !ctx.next_is_mine() {
+                    ctx.skip_cases(1);
+                    continue;
+                }
+                let mut idx = vec![];
+                let mut x = k;
+                for _ in 0..len {
+                    idx.push((x % n as u64) as usize);
+                    x /= n as u64;
+                }
+                let seq: Vec<&T> = idx.iter().map(|i| &alpha[*i]).collect();
+                let text = render(prec, &seq);
+                let with_cli = counter % 37 == 0;
+                let mut q = 0u64;
+                ctx.case(|| text.clone(), || judge(prec, &seq, &text, with_cli, &mut q));
+                ctx.count("transitions", q);
+                ctx.count("validated", q);
+                ctx.count("states", 1);
+            }
+        }
+    }
+}
